@@ -77,8 +77,39 @@ class Logic:
         self.plain = z3.Function("plain_variable_like", self.Node, self.Node)
         self._var_axioms_added = False
         # selection (transport) nodes: transport_variable(v) = Variable("T_" + v.name) is injective and yields a transport node
+        self.NodeSetSort = z3.ArraySort(self.Node, self.B)
+        self.at = z3.Function("intervene_with", self.NodeSetSort, self.Node, self.Node)      # x.intervene(S)
+        self.iv_plus = z3.Function("iv_plus", self.Node, self.Node)                           # +x
+        self.iv_minus = z3.Function("iv_minus", self.Node, self.Node)                         # -x
+        self._at_axioms_added = False
         self.is_transport = z3.Function("is_transport_node", self.Node, self.B)
         self.transport = z3.Function("transport_variable", self.Node, self.Node)
+
+    def intervene_axioms(self):
+        """x.intervene(S) for a plain variable x and a set S of Intervention objects: the counterfactual variable with x's name
+        and mark and exactly the subscripts S; +x / -x are Intervention objects of x."""
+        b, ivs, plain = self.var_algebra()
+        if not self._at_axioms_added:
+            self._at_axioms_added = True
+            A = z3.Const("A_iv", self.NodeSetSort)
+            x, y, i = z3.Const("x_iv", self.Node), z3.Const("y_iv", self.Node), z3.Const("i_iv", self.Node)
+            plainvar = lambda v: z3.And(z3.Not(self.is_cf(v)), z3.Not(self.is_intervention(v)))
+            if self.k is None:
+                fa = lambda vs, body: z3.ForAll(vs, body)
+            else:
+                fa = None
+            axs = []
+            if fa is not None:
+                j = z3.Const("j_iv", self.Node)
+                axs = [fa([A, x], z3.Implies(plainvar(x), z3.And(
+                           self.is_cf(self.at(A, x)) == z3.Exists([j], z3.And(z3.Select(A, j), self.is_intervention(j))),
+                           z3.Not(self.is_intervention(self.at(A, x))), b(self.at(A, x)) == b(x)))),
+                       fa([A, x, i], z3.Implies(plainvar(x), ivs(self.at(A, x), i) == z3.And(z3.Select(A, i), self.is_intervention(i)))),
+                       fa([A, x, y], z3.Implies(z3.And(plainvar(x), plainvar(y), self.at(A, x) == self.at(A, y)), x == y)),
+                       fa([x], z3.And(self.is_intervention(self.iv_plus(x)), self.is_intervention(self.iv_minus(x)),
+                                      b(self.iv_plus(x)) == b(x), b(self.iv_minus(x)) == b(x), self.iv_plus(x) != self.iv_minus(x)))]
+            self.add_axioms(set(), axs)
+        return self.at
 
     def var_algebra(self):
         """Axioms of the Variable algebra (data invariants of y0.dsl.Variable / Intervention / CounterfactualVariable)."""
